@@ -112,13 +112,22 @@ void rotationReuse(vf::Ctx & c)
   int n = static_cast<int>(c.s.i("n_inits", 2, 5));
   std::vector<Vector3d> angles;
   std::vector<int> readsBefore, overload;
+  bool repeated = false;
   for (int k = 0; k < n; ++k) {
-    angles.push_back(genAngles(c, "roll", "pitch", "yaw"));
+    // a new triple, or exactly the triple of an earlier initialisation (an "unchanged input" shortcut must still
+    // notice what happened in between)
+    if (k >= 1 && c.s.flag("repeat_earlier_angles", 1, 3)) {
+      angles.push_back(angles[static_cast<size_t>(c.s.i("which_earlier", 0, k - 1))]);
+      repeated = true;
+    } else {
+      angles.push_back(genAngles(c, "roll", "pitch", "yaw"));
+    }
     overload.push_back(static_cast<int>(c.s.i("init_overload", 0, 1)));
     readsBefore.push_back(static_cast<int>(c.s.i("reads_mask", 0, 31)));   // which accessors are read after this init
   }
   Vector3d v(c.s.r("vx", -100, 100), c.s.r("vy", -100, 100), c.s.r("vz", -100, 100));
   bool startDefault = c.s.flag("start_from_default_object");
+  if (repeated) {c.label("same-angles-initialised-again");}
   c.nontrivial(n >= 2);
   c.commit();
 
